@@ -2,7 +2,7 @@ from checks._pool_common import ASSUMPTIONS, COMPONENTS, make, simplify_knobs, s
 
 PROP = "C11"
 LEVEL = "exploration"
-RUNS = {"quick": 40000, "thorough": 2000000}
+RUNS = {"quick": 60000, "thorough": 2000000}
 BUDGET_S = {"quick": 45, "thorough": 840}
 CHUNK = 400
 RULE = ('One evaluation = one seeded run of the real local-pool Scheduler on the virtual-time loop: a generated task DAG (1-12 tasks, 0-3 dependencies each incl. late submissions on finished/failed/cancelled tasks, cores 1-4) driven by a seeded sequence of external events (process exit with any code incl. signals, connection-lost, cancel requests at any await point, timer expiry, k loop iterations in between). Oracle: at every spawn all dependencies exited 0 and are published COMPLETED; at the end a task with a failed/killed/cancelled dependency was never spawned and ended in the class of one of its bad dependencies. Non-trivial = at least one task with dependencies was decided; distinct = different event-log digest.')
